@@ -501,8 +501,9 @@ def _replay_claim(ob, c, rec):
             break
     entry = {'label': c['label'], 'inputs': inputs, 'why': c.get('why'),
              'known': c.get('known')}
-    if hit is None and viol and (c.get('candidate') or getattr(
-            ob, 'any_violation_confirms', False)):
+    if hit is None and viol:
+        # the concrete oracle fails on the real code for these inputs, under
+        # another label than the symbolic claim's: a violation all the same
         hit = list(viol.items())[0]
     if hit is None:
         entry['real'] = r
